@@ -10,7 +10,7 @@ DISTINCT_RULE = (
     "cases = seeded markets with 1-2 removals (factor None/0/<2.5/2.5/large, pre-play and in-play, same selection and factor in two markets of one run, "
     "sequential and event-grouped, WIN/PLACE/OTHER_PLACE/EACH_WAY) x orders in every state; distinct = (market type, factor class, order type, order status at removal)"
 )
-RULES = ["void", "reduction", "stable", "average"]
+RULES = ["void", "reduction", "stable", "average", "book-current", "paper-arrival"]
 MINIMA = {"quick": {"rule_void": 3000, "rule_reduction": 1500, "removals_in_files": 1200}, "thorough": {"rule_reduction": 50000}}
 ASSUMPTIONS = ["removals and factors are read from the raw file lines", "simulated_full_match is not used here (its fragments bypass the fragment hook)"]
 FACTORS = (None, 0, 1.3, 2.4, 2.5, 2.51, 12.0, 30.0, 64.0, 99.0)
@@ -137,6 +137,12 @@ def run_paper(desc):
                     out.v("removed-runner-order-not-complete", dict(tags, status=o.status.name, cause="-"), order=r.tr.okey(o))
 
     r = paperwalk.walk(desc, observe)
+    # (an order whose runner was withdrawn while it was on its way is matched against the book in force when it arrives: the runner is gone)
+    O.book_at_arrival_is_current(r.tr, out, {"paper": True})
+    for p_ in r.tr.placements:
+        out.rule("paper-arrival")
+        if p_.get("rstatus") == "REMOVED" and p_.get("frags"):
+            out.v("fill-on-removed-runner", {"paper": True}, placement={k: p_[k] for k in ("o", "book_pt", "frags", "rstatus")})
     out.c("removals_in_files", sum(1 for sn in r.snaps.values() for _ in O.removal_updates(sn)))
     out.c("paper_walks")
     out.d("c09paper:%d" % min(len(r.orders), 10))
